@@ -158,7 +158,7 @@ def run_proc(cmd, log, timeout, env=None):
 def header_coverage(prop, items, timeout=600):
     """items: list of dict(src=..., defs=[...], args=[...], n=int, seed=int, stubs=bool).  Returns a dict for the evidence file."""
     import tempfile
-    base = os.path.join(CACHE, 'cov', prop)
+    base = os.path.join(CACHE, 'cov', '%s-%d' % (prop, os.getpid()))
     if os.path.isdir(base): shutil.rmtree(base)
     agg, key_hits, notes = {}, {}, []
     def one(idx_item):
@@ -199,6 +199,7 @@ def header_coverage(prop, items, timeout=600):
         for ln, c in lines.items():
             if 0 < ln <= len(txt) and re.search(r'approxSqrtInv\(|MANIF_THROW|MANIF_CHECK|MANIF_ASSERT', txt[ln - 1]) and 'define' not in txt[ln - 1]:
                 key_hits['%s:%d: %s' % (rel, ln, txt[ln - 1].strip()[:70])] = c
+    shutil.rmtree(base, ignore_errors=True)
     return {'tool': 'gcov (separate -O0 --coverage build of the same monitors, %d small workloads)' % len(items), 'headers': out, 'key_line_hits': key_hits, 'notes': notes}
 
 
@@ -386,7 +387,7 @@ def sanitizer_violation(fold, prop, mon_name, rc, out, cmd):
 def run_sharded(prop, tier, seed, jobs, timeout):
     """jobs: list of dict(bin=Bin, n=int, seed=int, args=[...]).  Returns Fold, harness_fail."""
     fold = Fold()
-    rundir = os.path.join(CACHE, 'run', prop)
+    rundir = os.path.join(CACHE, 'run', '%s-%d' % (prop, os.getpid()))
     if os.path.isdir(rundir): shutil.rmtree(rundir)
     os.makedirs(rundir)
     fail = None
@@ -414,6 +415,7 @@ def run_sharded(prop, tier, seed, jobs, timeout):
                 continue
             if not fold.add_file(log):
                 fail = (fail or '') + ' no summary record from ' + ' '.join(cmd)
+    shutil.rmtree(rundir, ignore_errors=True)
     return fold, fail
 
 
